@@ -668,6 +668,7 @@ class Gen(object):
     def _reset(self):
         r = self.rng
         self.entries, self.oracles = [], []
+        self.force_exp = None
         self.id = r.randint(0, 4)
         self.ts = 1600000000 * SEC + r.randint(0, 10 ** 15)
         self.sess, self.dead = [], []
@@ -837,6 +838,8 @@ class Gen(object):
 
     def _config(self, expire=None):
         r = self.rng
+        if expire is None and getattr(self, "force_exp", None):
+            expire = self.force_exp     # wall-clock sensitive histories keep their expiration through config changes
         cfg = {}
         cfg["exp"] = expire if expire is not None else r.choice([600 * SEC, 600 * SEC, 1800 * SEC, 3600 * SEC, 90 * SEC, None])
         cfg["cool"] = r.choice([0, 500 * 10 ** 6, None, 2 * SEC])
@@ -1684,6 +1687,7 @@ class Gen(object):
         # phase 1: everything older than the threshold by >= 10 s
         span1 = r.randint(60, 3600) * SEC
         self.ts = now - exp - 10 * SEC - span1
+        self.force_exp = exp
         start_idx = 0
         self._setup(r.randint(3, 7), r.random() < 0.5, False, expire=exp)
         for _ in range(r.randint(5, 30)):
@@ -2382,10 +2386,11 @@ def mon_c12(tr):
         parsed = _entry_cmd(e)
         cmd = parsed[1] if parsed else b""
         ps = parsed[2] if parsed else []
-        if cmd == b"MODE" and len(ps) >= 2 and ps[0].startswith(b"#") and b"b" in ps[1] and b"n" in ps[1]:
-            # a ban-list query inside a compound mode string: the server answers the list and then does NOT announce
-            # the other changes of the same command (cmd_mode.go returns when replies were sent), so what is announced
-            # no longer tells whether the channel is +n: forget it (no `external-message` judgement for this channel)
+        if cmd == b"MODE" and len(ps) >= 2 and ps[0].startswith(b"#") and b"n" in ps[1]:
+            # cmd_mode.go announces a mode change to the channel only when the command produced no direct reply: a
+            # ban-list query, +k/-k (echoed to the user), an unknown mode character, ... in the same command make the
+            # other changes silent.  What is announced therefore does not always tell whether the channel is +n:
+            # forget it here; an announcement in this step's output (processed below) re-establishes it.
             ref.noext.discard(chan_to_lower(ps[0]))
         closing = [m for m in st.msgs if m.prefix is None and m.command == b"ERROR" and m.params and m.params[-1].startswith(b"Closing Link")]
         nick_rejected = any(m.command in (b"431", b"432", b"433", b"451", b"461") for m in st.msgs)
